@@ -18,6 +18,8 @@ for S in /verif/seeded/$P-*; do
   [ "$ID" = "C02-2" ] && EXTRA="C10"
   [ "$ID" = "C17-1" ] && EXTRA="C16"
   [ "$ID" = "C17-4" ] && EXTRA="C16"
+  [ "$ID" = "C17-5" ] && EXTRA="C16"
+  [ "$ID" = "C20-6" ] && EXTRA="C10"
   git -C $WT checkout -q -- .
   ( cd $WT && PYTHONPATH=$WT /venv/bin/python $S/demo.py >/dev/null 2>&1 ); DC=$?
   if git -C $WT apply $S/patch.diff 2>/dev/null; then AP=yes; else AP=NO; fi
